@@ -87,13 +87,16 @@ pub fn execute(property: &str, variant: usize, tier: props::Tier, dec: kernel::D
     };
     // attribute panics
     for p in panics.drain(..) {
-        if kernel::location_in_repo(&p.location) {
+        if kernel::panic_in_repo(&p) {
             let (prop, class) = props::classify_panic(&p, property);
             if !ctx.violations.iter().any(|v| v.property == prop && v.class == class) {
                 ctx.violations.push(kernel::Violation {
                     property: prop,
                     class,
-                    detail: format!("panic at {} in task '{}': {}", p.location, p.task, p.message),
+                    detail: match &p.via_repo {
+                        None => format!("panic at {} in task '{}': {}", p.location, p.task, p.message),
+                        Some(f) => format!("panic at {} reached through {f} in task '{}': {}", p.location, p.task, p.message),
+                    },
                     at_event: ctx.events,
                     virt_ms: p.virt_ms,
                 });
